@@ -1,12 +1,897 @@
-//! C07 - not implemented yet
-use crate::common::Report;
+//! C07 - inlining preserves Call/Iterate semantics in every mode.
+//!
+//! Enumerated: body kinds (see c07/kinds.rs) x vector lengths x inlining configurations x input
+//! families. Every element runs the REAL `inline_operations` and the REAL evaluator.
+//! Oracle: the un-inlined context evaluated by the evaluator's native Call/Iterate
+//! (evaluators.rs:25-61) on the same inputs, cross-checked against a pure-Rust model of the body
+//! where one exists (one-bit, K-bit, order witness); plus structural: no Call/Iterate left where the
+//! configuration asked for inlining, the nodes still there where it asked for Noop, one Random node
+//! per inlined copy of a body that draws randomness.
+mod kinds;
 
-pub fn run(_r: &Report) -> i32 {
-    println!("MACHINERY-ERROR property=C07 check not implemented");
-    2
+use crate::common::{catch, stable_msg, Report};
+use crate::exec::first_line;
+use crate::mpcx::eval_plain;
+use crate::vals;
+use ciphercore_base::data_types::{get_types_vector, Type};
+use ciphercore_base::data_values::Value;
+use ciphercore_base::graphs::{Context, Operation};
+use ciphercore_base::inline::inline_ops::{
+    inline_operations, DepthOptimizationLevel, InlineConfig, InlineMode,
+};
+use kinds::{Built, CfgClass, Flavor, Kind, Out, Shape};
+use rayon::prelude::*;
+use serde_json::{json, Value as J};
+use std::collections::BTreeMap;
+use std::sync::atomic::{AtomicBool, Ordering};
+use std::time::Instant;
+
+// ------------------------------------------------------------------------------------------------
+// configurations
+
+#[derive(Clone, Copy, PartialEq, Eq, Debug)]
+enum M {
+    Noop,
+    Simple,
+    DoD,
+    DoE,
+}
+const ALL_M: [M; 4] = [M::Noop, M::Simple, M::DoD, M::DoE];
+
+impl M {
+    fn name(self) -> &'static str {
+        match self {
+            M::Noop => "noop",
+            M::Simple => "simple",
+            M::DoD => "depth-default",
+            M::DoE => "depth-extreme",
+        }
+    }
+    fn parse(s: &str) -> Option<M> {
+        ALL_M.iter().copied().find(|m| m.name() == s)
+    }
+    fn mode(self) -> InlineMode {
+        match self {
+            M::Noop => InlineMode::Noop,
+            M::Simple => InlineMode::Simple,
+            M::DoD => InlineMode::DepthOptimized(DepthOptimizationLevel::Default),
+            M::DoE => InlineMode::DepthOptimized(DepthOptimizationLevel::Extreme),
+        }
+    }
+    fn depth(self) -> bool {
+        matches!(self, M::DoD | M::DoE)
+    }
 }
 
-pub fn replay(_r: &Report, _rec: &serde_json::Value) -> i32 {
-    println!("MACHINERY-ERROR property=C07 replay not implemented");
-    2
+#[derive(Clone, Copy, PartialEq, Eq, Debug)]
+struct Cfg {
+    d: M,
+    c: Option<M>,
+    i: Option<M>,
+}
+impl Cfg {
+    fn call(&self) -> M {
+        self.c.unwrap_or(self.d)
+    }
+    fn iter(&self) -> M {
+        self.i.unwrap_or(self.d)
+    }
+    fn config(&self) -> InlineConfig {
+        InlineConfig {
+            default_mode: self.d.mode(),
+            override_call_mode: self.c.map(|m| m.mode()),
+            override_iterate_mode: self.i.map(|m| m.mode()),
+        }
+    }
+    fn json(&self) -> J {
+        json!({"default": self.d.name(), "override_call": self.c.map(|m| m.name()), "override_iterate": self.i.map(|m| m.name())})
+    }
+    fn name(&self) -> String {
+        format!(
+            "{}/{}/{}",
+            self.d.name(),
+            self.c.map(|m| m.name()).unwrap_or("-"),
+            self.i.map(|m| m.name()).unwrap_or("-")
+        )
+    }
+    fn from_json(j: &J) -> Option<Cfg> {
+        let opt = |k: &str| -> Option<Option<M>> {
+            match j.get(k) {
+                None | Some(J::Null) => Some(None),
+                Some(J::String(s)) => M::parse(s).map(Some),
+                _ => None,
+            }
+        };
+        Some(Cfg { d: M::parse(j.get("default")?.as_str()?)?, c: opt("override_call")?, i: opt("override_iterate")? })
+    }
+}
+
+fn plain(d: M) -> Cfg {
+    Cfg { d, c: None, i: None }
+}
+
+fn cfgs_of(class: CfgClass) -> Vec<Cfg> {
+    let mut v = vec![plain(M::Simple), plain(M::DoD), plain(M::DoE)];
+    match class {
+        CfgClass::Plain3 => {}
+        CfgClass::Plain3Plus => {
+            v.push(plain(M::Noop));
+            v.push(Cfg { d: M::Noop, c: None, i: Some(M::Simple) });
+            v.push(Cfg { d: M::Noop, c: None, i: Some(M::DoD) });
+            v.push(Cfg { d: M::Simple, c: None, i: Some(M::DoE) });
+            v.push(Cfg { d: M::Simple, c: None, i: Some(M::Noop) });
+            v.push(Cfg { d: M::DoE, c: None, i: Some(M::Noop) });
+            v.push(Cfg { d: M::DoE, c: Some(M::Noop), i: None });
+            v.push(Cfg { d: M::Noop, c: Some(M::DoD), i: Some(M::DoE) });
+        }
+        CfgClass::All100 => {
+            v.clear();
+            let opts = [None, Some(M::Noop), Some(M::Simple), Some(M::DoD), Some(M::DoE)];
+            for d in ALL_M {
+                for c in opts {
+                    for i in opts {
+                        v.push(Cfg { d, c, i });
+                    }
+                }
+            }
+        }
+    }
+    v
+}
+
+// ------------------------------------------------------------------------------------------------
+// the enumerated space
+
+const QUICK_LENGTHS: [u64; 15] = [0, 1, 2, 3, 4, 7, 8, 9, 15, 16, 17, 31, 32, 33, 40];
+
+fn lengths(thorough: bool) -> Vec<u64> {
+    if thorough {
+        (0..=40).collect()
+    } else {
+        QUICK_LENGTHS.to_vec()
+    }
+}
+
+fn all_kinds(thorough: bool) -> Vec<Kind> {
+    let mut v = vec![];
+    let outs = [Out::Empty, Out::Pre];
+    for arr in [false, true] {
+        v.push(Kind::Empty { arr });
+    }
+    for arr in [false, true] {
+        v.push(Kind::General { arr });
+    }
+    for arr in [false, true] {
+        for out in outs {
+            v.push(Kind::AssocAdd { arr, out });
+        }
+    }
+    for signed in [false, true] {
+        for out in outs {
+            v.push(Kind::AssocMat { signed, out });
+        }
+    }
+    for out in outs {
+        v.push(Kind::Witness { out });
+    }
+    for shape in [Shape::Flat, Shape::Lanes, Shape::Grid] {
+        for out in outs {
+            v.push(Kind::OneBit { shape, out });
+        }
+    }
+    for k in 1..=4u64 {
+        for flavor in [Flavor::Shift, Flavor::Affine, Flavor::Counter] {
+            for shape in [Shape::Lanes, Shape::Flat, Shape::Grid] {
+                for out in outs {
+                    let keep = if thorough {
+                        // the grid shape adds only one more batch dimension: one flavour per K;
+                        // K = 4 unbatched: one flavour
+                        (shape != Shape::Grid || flavor == Flavor::Counter)
+                            && (k < 4 || shape != Shape::Flat || flavor == Flavor::Counter)
+                    } else if k == 4 {
+                        (shape == Shape::Lanes && out == Out::Pre)
+                            || (flavor == Flavor::Counter && shape != Shape::Grid && (shape == Shape::Lanes || out == Out::Pre))
+                    } else {
+                        // quick: per K every flavour batched with exposed pre-states, and one
+                        // flavour in the other shapes / with empty output
+                        (shape == Shape::Lanes && out == Out::Pre)
+                            || (flavor == Flavor::Counter && (shape != Shape::Grid || out == Out::Pre))
+                    };
+                    if keep {
+                        v.push(Kind::Small { k, flavor, shape, out });
+                    }
+                }
+            }
+        }
+    }
+    v.push(Kind::RandEmpty);
+    v.push(Kind::RandGeneral);
+    v.push(Kind::RandCall);
+    v.push(Kind::RandNested);
+    for which in 1..=5u8 {
+        for assoc in [false, true] {
+            v.push(Kind::Nested { which, assoc });
+        }
+    }
+    for which in 0..5u8 {
+        v.push(Kind::Probe { which });
+    }
+    v
+}
+
+/// lengths at which a kind is run (cost control: one lane-step of the small-state strategy costs
+/// about 4^K times the one-bit strategy)
+fn runs_at(kind: &Kind, n: u64, thorough: bool) -> bool {
+    match kind {
+        Kind::RandCall => n == 0, // no vector involved
+        Kind::Small { k, flavor, shape, out } => {
+            let primary = *flavor == Flavor::Counter && *shape == Shape::Lanes && *out == Out::Pre;
+            let medium = *shape == Shape::Lanes && *out == Out::Pre;
+            let long = [31u64, 32, 33, 40].contains(&n);
+            match (k, thorough) {
+                (4, false) => {
+                    if primary {
+                        [0u64, 1, 2, 3, 4, 8, 16].contains(&n)
+                    } else {
+                        n == 2 || n == 4
+                    }
+                }
+                (4, true) => {
+                    if primary {
+                        n <= 17 || n == 32
+                    } else {
+                        n <= 9 || n == 16
+                    }
+                }
+                (3, false) => primary || medium || n <= 17 || n == 32,
+                (3, true) => primary || medium || n <= 20 || long,
+                _ => true,
+            }
+        }
+        _ => true,
+    }
+}
+
+// ------------------------------------------------------------------------------------------------
+// per-unit result (merged in enumeration order by the main thread)
+
+#[derive(Default)]
+struct Res {
+    counts: BTreeMap<String, u64>,
+    distinct: Vec<String>,
+    samples: Vec<J>,
+    viols: Vec<(String, String, J)>,
+    machinery: Vec<String>,
+    secs: f64,
+    label: String,
+}
+impl Res {
+    fn count(&mut self, k: &str, n: u64) {
+        *self.counts.entry(k.to_string()).or_insert(0) += n;
+    }
+}
+
+fn flat(v: &Value, t: &Type, out: &mut Vec<u128>) -> bool {
+    match t {
+        Type::Scalar(_) | Type::Array(_, _) => match vals::arr_elems(v, t) {
+            Some(e) => {
+                out.extend(e);
+                true
+            }
+            None => false,
+        },
+        _ => {
+            let ts = match get_types_vector(t.clone()) {
+                Ok(ts) => ts,
+                Err(_) => return false,
+            };
+            let vs = match v.to_vector() {
+                Ok(vs) => vs,
+                Err(_) => return false,
+            };
+            vs.len() == ts.len() && vs.iter().zip(ts.iter()).all(|(x, tt)| flat(x, tt, out))
+        }
+    }
+}
+
+fn flat_of(v: &Value, t: &Type) -> Result<Vec<u128>, String> {
+    let mut o = vec![];
+    if flat(v, t, &mut o) {
+        Ok(o)
+    } else {
+        Err("value does not have the layout of its type".into())
+    }
+}
+
+struct OpCounts {
+    calls: u64,
+    iterates: u64,
+    randoms: u64,
+    main_calls: u64,
+    main_iterates: u64,
+    nodes: u64,
+}
+
+fn op_counts(ctx: &Context) -> OpCounts {
+    let mut o = OpCounts { calls: 0, iterates: 0, randoms: 0, main_calls: 0, main_iterates: 0, nodes: 0 };
+    let main = ctx.get_main_graph().unwrap();
+    for g in ctx.get_graphs() {
+        let is_main = g == main;
+        for nd in g.get_nodes() {
+            o.nodes += 1;
+            match nd.get_operation() {
+                Operation::Call => {
+                    o.calls += 1;
+                    if is_main {
+                        o.main_calls += 1;
+                    }
+                }
+                Operation::Iterate => {
+                    o.iterates += 1;
+                    if is_main {
+                        o.main_iterates += 1;
+                    }
+                }
+                Operation::Random(_) => o.randoms += 1,
+                _ => {}
+            }
+        }
+    }
+    o
+}
+
+fn first_diff(a: &[u128], b: &[u128]) -> J {
+    if a.len() != b.len() {
+        return json!({"expected_len": a.len(), "observed_len": b.len()});
+    }
+    for i in 0..a.len() {
+        if a[i] != b[i] {
+            return json!({"flat_index": i, "expected": a[i].to_string(), "observed": b[i].to_string(), "flat_len": a.len()});
+        }
+    }
+    J::Null
+}
+
+fn show_short(v: &[u128]) -> J {
+    if v.len() <= 48 {
+        J::Array(v.iter().map(|x| json!(x.to_string())).collect())
+    } else {
+        json!(format!("<{} elements>", v.len()))
+    }
+}
+
+struct Only {
+    /// None: all configurations of the kind's class
+    cfg: Option<Cfg>,
+    /// input sets [from, to)
+    inputs: Option<(usize, usize)>,
+    verbose: bool,
+    /// later sub-units of a (kind, n): only the plain depth-optimised configurations
+    depth_only: bool,
+}
+
+fn run_unit(kind: &Kind, n: u64, thorough: bool, only: Option<&Only>) -> Res {
+    let t0 = Instant::now();
+    let mut res = Res { label: format!("{}@{}", kind.name(), n), ..Default::default() };
+    let verbose = only.map(|o| o.verbose).unwrap_or(false);
+    let built: Built = match catch(|| kind.build(n, thorough)) {
+        Ok(Ok(b)) => b,
+        Ok(Err(e)) => {
+            res.machinery.push(format!("cannot build {} n={}: {}", kind.name(), n, first_line(&e.to_string())));
+            return res;
+        }
+        Err(p) => {
+            res.machinery.push(format!("cannot build {} n={}: panic {}", kind.name(), n, p));
+            return res;
+        }
+    };
+    res.count("contexts_built", 1);
+    if only.map(|o| !o.depth_only).unwrap_or(true) {
+        res.count("lanes", built.lanes);
+    }
+    let src_counts = op_counts(&built.ctx);
+    let idxs: Vec<usize> = match only.and_then(|o| o.inputs) {
+        Some((a, b)) => (a..std::cmp::min(b, built.inputs.len())).collect(),
+        None => (0..built.inputs.len()).collect(),
+    };
+    if idxs.is_empty() {
+        res.machinery.push(format!("{}: empty input range", res.label));
+        return res;
+    }
+    let case_json = |cfg: &Cfg, input: Option<usize>, more: J| -> J {
+        let ctx_txt = serde_json::to_string(&built.ctx).unwrap_or_default();
+        json!({
+            "kind": kind.name(), "n": n, "cfg": cfg.json(), "input_index": input,
+            "thorough_families": thorough, "detail": more,
+            "source_context": if ctx_txt.len() < 60_000 { json!(ctx_txt) } else { json!("<omitted: rebuilt from kind and n>") },
+        })
+    };
+    // ---- the oracle: native Call/Iterate evaluation of the source context
+    let mut native: BTreeMap<usize, Vec<u128>> = BTreeMap::new();
+    let mut in_flat: BTreeMap<usize, Vec<u128>> = BTreeMap::new();
+    for &ix in idxs.iter() {
+        if ix >= built.inputs.len() {
+            res.machinery.push(format!("{}: input index {} out of range", res.label, ix));
+            return res;
+        }
+        let v = match eval_plain(&built.ctx, &built.inputs[ix], 1) {
+            Ok(v) => v,
+            Err(e) => {
+                res.machinery.push(format!("{}: native evaluation of the source context failed: {}", res.label, e));
+                return res;
+            }
+        };
+        let f = match flat_of(&v, &built.out_type) {
+            Ok(f) => f,
+            Err(e) => {
+                res.machinery.push(format!("{}: native result: {}", res.label, e));
+                return res;
+            }
+        };
+        res.count("native_evaluations", 1);
+        if let Some(m) = &built.models[ix] {
+            res.count("model_crosschecks", 1);
+            if *m != f {
+                res.viols.push((
+                    format!("C07:native-vs-model:{}", kind.class()),
+                    format!("native Iterate evaluation of a {} body differs from the pure-Rust model of the body", kind.class()),
+                    case_json(&plain(M::Noop), Some(ix), json!({"first_difference": first_diff(m, &f)})),
+                ));
+            } else if matches!(kind, Kind::Witness { .. }) && ix == 0 {
+                res.count("witness_decisive_native_ok", 1);
+            }
+        }
+        if kind.is_random() {
+            let mut fi = vec![];
+            for (iv, it) in built.inputs[ix].iter().zip(built.in_types.iter()) {
+                flat(iv, it, &mut fi);
+            }
+            if let Err(e) = kinds::random_relations(kind, n, &fi, &f) {
+                res.viols.push((
+                    "C07:native-random-relation".into(),
+                    format!("native evaluation of a random body: {}", e),
+                    case_json(&plain(M::Noop), Some(ix), json!({})),
+                ));
+            }
+            in_flat.insert(ix, fi);
+        }
+        if verbose {
+            for (j, (iv, it)) in built.inputs[ix].iter().zip(built.in_types.iter()).enumerate() {
+                let mut fi = vec![];
+                flat(iv, it, &mut fi);
+                println!("input set {} argument {} (flattened): {}", ix, j, show_short(&fi));
+            }
+            println!("expected = native Call/Iterate evaluation (oracle), input set {}: {}", ix, show_short(&f));
+        }
+        native.insert(ix, f);
+    }
+    // ---- every configuration
+    let mut cfgs: Vec<Cfg> = match only.and_then(|o| o.cfg) {
+        Some(c) => vec![c],
+        None => cfgs_of(kind.cfg_class()),
+    };
+    if only.map(|o| o.depth_only).unwrap_or(false) {
+        cfgs.retain(|c| c.c.is_none() && c.i.is_none() && c.d.depth());
+    }
+    let nested = matches!(kind.cfg_class(), CfgClass::All100);
+    let mut simple_nodes: Option<u64> = None;
+    for cfg in cfgs.iter() {
+        let mode_tag = if nested {
+            // coarse on purpose: one defect should not produce one signature per override combination
+            format!(
+                "call={},iterate={}",
+                if cfg.call() == M::Noop { "noop" } else { "inlined" },
+                cfg.iter().name()
+            )
+        } else {
+            cfg.iter().name().to_string()
+        };
+        let sig = |failure: &str| format!("C07:{}:{}:{}", failure, kind.class(), mode_tag);
+        let src = built.ctx.clone();
+        let config = cfg.config();
+        let t_inl = Instant::now();
+        let inl = catch(move || inline_operations(&src, config));
+        let inl_s = t_inl.elapsed().as_secs_f64();
+        res.count("inline_calls", 1);
+        let out_ctx = match inl {
+            Ok(Ok(m)) => m.get_context(),
+            Ok(Err(e)) => {
+                let msg = first_line(&e.to_string());
+                if kind.in_contract() {
+                    res.viols.push((
+                        format!("{}:{}", sig("inline-error"), stable_msg(&msg)),
+                        format!("inline_operations returns Err for a {} body that satisfies the inliner's contract (n={}, {}): {}", kind.class(), n, cfg.name(), msg),
+                        case_json(cfg, None, json!({"error": msg})),
+                    ));
+                } else {
+                    res.count(&format!("probe:{}:{}:err", kind.name(), cfg.iter().name()), 1);
+                    res.count("out_of_contract_errors", 1);
+                }
+                if verbose {
+                    println!("inline_operations [{}]: Err {}", cfg.name(), msg);
+                }
+                continue;
+            }
+            Err(p) => {
+                if kind.in_contract() {
+                    res.viols.push((
+                        format!("{}:{}", sig("inline-panic"), stable_msg(&p)),
+                        format!("inline_operations panics for a {} body (n={}, {}): {}", kind.class(), n, cfg.name(), p),
+                        case_json(cfg, None, json!({"panic": p})),
+                    ));
+                } else {
+                    res.count(&format!("probe:{}:{}:panic", kind.name(), cfg.iter().name()), 1);
+                }
+                if verbose {
+                    println!("inline_operations [{}]: panic {}", cfg.name(), p);
+                }
+                continue;
+            }
+        };
+        if !kind.in_contract() {
+            res.count(&format!("probe:{}:{}:ok", kind.name(), cfg.iter().name()), 1);
+            if cfg.iter().depth() && n > 0 {
+                // outside the contract: the result may legitimately be wrong; not judged
+                continue;
+            }
+        }
+        // ---- structure
+        let oc = op_counts(&out_ctx);
+        res.count("structural_checks", 1);
+        if cfg.iter() != M::Noop && oc.iterates != 0 {
+            res.viols.push((
+                sig("leftover-iterate"),
+                format!("{} Iterate node(s) left although the configuration asks for inlining them ({}, n={})", oc.iterates, cfg.name(), n),
+                case_json(cfg, None, json!({"iterate_nodes": oc.iterates})),
+            ));
+        }
+        if cfg.call() != M::Noop && oc.calls != 0 {
+            res.viols.push((
+                sig("leftover-call"),
+                format!("{} Call node(s) left although the configuration asks for inlining them ({}, n={})", oc.calls, cfg.name(), n),
+                case_json(cfg, None, json!({"call_nodes": oc.calls})),
+            ));
+        }
+        if cfg.iter() == M::Noop && src_counts.main_iterates > 0 {
+            res.count("noop_iterate_kept_checks", 1);
+            if oc.main_iterates < built.main_iters {
+                res.viols.push((
+                    sig("noop-iterate-removed"),
+                    format!("Iterate nodes of the main graph disappeared under override Noop ({}, n={})", cfg.name(), n),
+                    case_json(cfg, None, json!({"source": built.main_iters, "inlined": oc.main_iterates})),
+                ));
+            }
+        }
+        if cfg.call() == M::Noop && src_counts.main_calls > 0 {
+            res.count("noop_call_kept_checks", 1);
+            if oc.main_calls < built.main_calls {
+                res.viols.push((
+                    sig("noop-call-removed"),
+                    format!("Call nodes of the main graph disappeared under override Noop ({}, n={})", cfg.name(), n),
+                    case_json(cfg, None, json!({"source": built.main_calls, "inlined": oc.main_calls})),
+                ));
+            }
+        }
+        let fully_inlined = cfg.iter() != M::Noop && cfg.call() != M::Noop;
+        if let (Some(exp), true) = (kind.expected_random_nodes(n), fully_inlined) {
+            res.count("random_node_count_checks", 1);
+            if n > 1 || matches!(kind, Kind::RandCall) {
+                res.count("random_multi_copy_checks", 1);
+            }
+            if oc.randoms != exp {
+                res.viols.push((
+                    sig("random-node-count"),
+                    format!("inlined context has {} Random nodes for {} inlined copies of a body that draws randomness ({}, n={})", oc.randoms, exp, cfg.name(), n),
+                    case_json(cfg, None, json!({"random_nodes": oc.randoms, "expected": exp})),
+                ));
+            }
+        }
+        if *cfg == plain(M::Simple) {
+            simple_nodes = Some(oc.nodes);
+        } else if cfg.c.is_none() && cfg.i.is_none() && cfg.d.depth() && n >= 2 {
+            if let Some(sn) = simple_nodes {
+                if sn != oc.nodes {
+                    res.count(&format!("depth_strategy_taken:{}", kind.strategy()), 1);
+                }
+            }
+        }
+        if cfg.iter().depth() && n >= 1 && !nested {
+            let alg = match (kind.strategy(), cfg.iter()) {
+                ("associative", _) | ("one-bit", _) | ("small-state", _) => {
+                    let empty_out = matches!(
+                        kind,
+                        Kind::AssocAdd { out: Out::Empty, .. }
+                            | Kind::AssocMat { out: Out::Empty, .. }
+                            | Kind::Witness { out: Out::Empty }
+                            | Kind::OneBit { out: Out::Empty, .. }
+                            | Kind::Small { out: Out::Empty, .. }
+                    );
+                    if empty_out {
+                        "log_depth_sum"
+                    } else if cfg.iter() == M::DoE {
+                        "binary_ascent"
+                    } else if n < 16 {
+                        "sqrt_trick"
+                    } else {
+                        "segment_tree"
+                    }
+                }
+                _ => "",
+            };
+            if !alg.is_empty() {
+                res.count(&format!("prefix_algorithm:{}", alg), 1);
+            }
+        }
+        // ---- values
+        let mut eval_s = 0.0;
+        for &ix in idxs.iter() {
+            let t_ev = Instant::now();
+            let got = eval_plain(&out_ctx, &built.inputs[ix], 2 + ix as u64);
+            eval_s += t_ev.elapsed().as_secs_f64();
+            res.count("evaluations", 1);
+            let nontrivial = n >= 1 && (cfg.iter() != M::Noop || cfg.call() != M::Noop);
+            if nontrivial {
+                res.distinct.push(format!("{}|{}|{}|{}", kind.name(), n, cfg.name(), ix));
+            }
+            let exp = &native[&ix];
+            let got_flat = match got {
+                Ok(v) => flat_of(&v, &built.out_type),
+                Err(e) => Err(e),
+            };
+            let gf = match got_flat {
+                Ok(gf) => gf,
+                Err(e) => {
+                    res.viols.push((
+                        format!("{}:{}", sig("eval-error"), stable_msg(&e)),
+                        format!("the inlined context cannot be evaluated ({} body, n={}, {}): {}", kind.class(), n, cfg.name(), e),
+                        case_json(cfg, Some(ix), json!({"error": e})),
+                    ));
+                    if verbose {
+                        println!("inlined [{}] input {}: evaluation failed: {}", cfg.name(), ix, e);
+                    }
+                    continue;
+                }
+            };
+            if verbose {
+                println!("observed = inlined context [{}], input set {}: {}", cfg.name(), ix, show_short(&gf));
+            }
+            if kind.is_random() {
+                res.count("random_relation_checks", 1);
+                if let Err(e) = kinds::random_relations(kind, n, &in_flat[&ix], &gf) {
+                    res.viols.push((
+                        sig("random-relation"),
+                        format!("inlined random body ({}, n={}): {}", cfg.name(), n, e),
+                        case_json(cfg, Some(ix), json!({"observed": show_short(&gf)})),
+                    ));
+                }
+                continue;
+            }
+            if gf != *exp {
+                res.viols.push((
+                    sig("value-mismatch"),
+                    format!(
+                        "inlined context ({}) computes a different result than native Call/Iterate evaluation for a {} body at vector length {}",
+                        cfg.name(), kind.class(), n
+                    ),
+                    case_json(cfg, Some(ix), json!({
+                        "first_difference": first_diff(exp, &gf),
+                        "expected": show_short(exp), "observed": show_short(&gf),
+                    })),
+                ));
+            } else {
+                if matches!(kind, Kind::Witness { .. }) && ix == 0 && cfg.iter().depth() {
+                    res.count("witness_decisive_cases", 1);
+                }
+                if cfg.iter() == M::Noop || cfg.call() == M::Noop {
+                    res.count("noop_override_value_checks", 1);
+                }
+            }
+        }
+        if std::env::var("VERIF_C07_TIMING").is_ok() {
+            eprintln!(
+                "timing {} n={} cfg={} sets={} nodes={} inline_s={:.3} eval_s={:.3}",
+                kind.name(), n, cfg.name(), idxs.len(), oc.nodes, inl_s, eval_s
+            );
+        }
+        if res.samples.len() < 2 && n >= 2 && cfg.iter().depth() {
+            res.samples.push(json!({
+                "kind": kind.name(), "n": n, "cfg": cfg.name(), "input_sets": idxs.len(),
+                "lanes": built.lanes, "inlined_nodes": oc.nodes, "source_nodes": src_counts.nodes,
+                "native_result_input0": show_short(&native[&idxs[0]]),
+            }));
+        }
+    }
+    res.secs = t0.elapsed().as_secs_f64();
+    res
+}
+
+// ------------------------------------------------------------------------------------------------
+
+pub fn run(r: &Report) -> i32 {
+    let thorough = r.tier.thorough();
+    let filter = std::env::var("VERIF_C07_ONLY").ok();
+    let mut units: Vec<(Kind, u64, Option<(usize, usize)>)> = vec![];
+    let kinds = all_kinds(thorough);
+    for n in lengths(thorough) {
+        for k in kinds.iter() {
+            if !runs_at(k, n, thorough) {
+                continue;
+            }
+            if let Some(f) = &filter {
+                if !f.split(",").any(|p| k.name().starts_with(p)) {
+                    continue;
+                }
+            }
+            let sets = k.n_input_sets(n, thorough);
+            let chunk = k.sets_per_unit();
+            if sets > chunk {
+                let mut a = 0;
+                while a < sets {
+                    units.push((k.clone(), n, Some((a, std::cmp::min(a + chunk, sets)))));
+                    a += chunk;
+                }
+            } else {
+                units.push((k.clone(), n, None));
+            }
+        }
+    }
+    // wall-clock guard (never a verdict: a cut enumeration is reported as a cap)
+    let budget_s = if thorough { 13.0 * 60.0 } else { 55.0 };
+    let start = Instant::now();
+    let cut = AtomicBool::new(false);
+    // heavy units first within the pool does not change results: they are merged in enumeration order
+    let mut order: Vec<usize> = (0..units.len()).collect();
+    let weight = |k: &Kind| -> u64 {
+        match k {
+            Kind::Small { k, .. } => 1u64 << (2 * k),
+            _ => 1,
+        }
+    };
+    order.sort_by_key(|i| std::cmp::Reverse(units[*i].1 * weight(&units[*i].0)));
+    let mut results: Vec<(usize, Option<Res>)> = order
+        .par_iter()
+        .map(|&i| {
+            if start.elapsed().as_secs_f64() > budget_s {
+                cut.store(true, Ordering::Relaxed);
+                return (i, None);
+            }
+            let later = units[i].2.map(|r| r.0 > 0).unwrap_or(false);
+            let only = Only { cfg: None, inputs: units[i].2, verbose: false, depth_only: later };
+            (i, Some(run_unit(&units[i].0, units[i].1, thorough, Some(&only))))
+        })
+        .collect();
+    results.sort_by_key(|x| x.0);
+    let mut skipped = 0u64;
+    let mut machinery: Vec<String> = vec![];
+    let mut slow: Vec<(f64, String)> = vec![];
+    for (_, res) in results.into_iter() {
+        let res = match res {
+            Some(x) => x,
+            None => {
+                skipped += 1;
+                continue;
+            }
+        };
+        r.count("units", 1);
+        for (k, v) in res.counts.iter() {
+            r.count(k, *v);
+        }
+        for d in res.distinct.iter() {
+            r.distinct_str(d);
+        }
+        for s in res.samples.into_iter() {
+            r.sample(s);
+        }
+        for (sig, what, case) in res.viols.into_iter() {
+            r.violation(&sig, &what, case);
+        }
+        machinery.extend(res.machinery);
+        slow.push((res.secs, res.label));
+    }
+    slow.sort_by(|a, b| b.0.partial_cmp(&a.0).unwrap());
+    if std::env::var("VERIF_C07_TIMING").is_ok() {
+        for (s, l) in slow.iter().take(8) {
+            eprintln!("slow unit {} {:.1}s", l, s);
+        }
+    }
+    r.extra("lengths", json!(lengths(thorough)));
+    r.extra("kinds", json!(kinds.iter().map(|k| k.name()).collect::<Vec<_>>()));
+    r.extra(
+        "out_of_contract_probes",
+        json!((0..5u8).map(|w| format!("probe{}: {}", w, kinds::probe_what(w))).collect::<Vec<_>>()),
+    );
+    if cut.load(Ordering::Relaxed) {
+        r.cap_hit(&format!("wall-clock budget: {} units not run", skipped));
+    }
+    if !machinery.is_empty() {
+        for m in machinery.iter().take(5) {
+            println!("MACHINERY-ERROR property=C07 {}", m);
+        }
+        return 2;
+    }
+    let mut keys = vec!["evaluations"];
+    if filter.is_none() {
+        keys.extend_from_slice(&["structural_checks", "model_crosschecks",
+            "witness_decisive_cases",
+            "depth_strategy_taken:associative",
+            "depth_strategy_taken:one-bit",
+            "depth_strategy_taken:small-state",
+            "prefix_algorithm:sqrt_trick",
+            "prefix_algorithm:segment_tree",
+            "prefix_algorithm:binary_ascent",
+            "prefix_algorithm:log_depth_sum",
+            "random_multi_copy_checks",
+            "random_relation_checks",
+            "noop_iterate_kept_checks",
+            "noop_call_kept_checks",
+            "noop_override_value_checks",
+            "out_of_contract_errors",
+        ]);
+    }
+    r.finish(
+        "exploration",
+        "unit = (body kind, vector length); every unit x every inlining configuration of its class x every input set of its family; distinct non-trivial = (kind, n >= 1, configuration that inlines something, input set)",
+        true,
+        &[
+            "oracle is the evaluator's native Call/Iterate (evaluators.rs:25-61), cross-checked against a pure-Rust model for the one-bit, K-bit and order-witness bodies",
+            "bodies outside the stated contracts of the associative / one-bit / small-state strategies (probe0..4) are run but not judged in depth-optimised modes",
+            "input families: one-bit n <= 6 all 4^n function sequences x both initial states, above: identity, one-point, dense and two-point families (all a,b in the batched shape in the thorough tier and for n <= 17 in the quick tier, boundary positions otherwise); K-bit: all sequences x all states for n <= 5/4/3/2 (K = 1/2/3/4), above: priority-ordered families cut at a per-(K, variant, n) lane budget (kinds.rs lane_cap) - a fixed, documented subset, not a sample",
+            "K = 4 runs at lengths {0,1,2,3,4,8,16} (quick) / 0..=17 and 32 (thorough) for the primary variant and at fewer lengths for the others (runs_at); K = 3 secondary variants skip some lengths above 17/20: one K = 4 lane-step costs ~2.5 ms per evaluation",
+            "unbatched scalar / [K] states use boundary-position families; position-exhaustive families are carried by the batched shapes [m], [m,K]",
+            "arithmetic bodies (empty, general, associative add / matrix product): 6 boundary-alphabet input sets each; the order-witness monoid's single decisive input plus one arbitrary input",
+            "Simple mode and the override configurations are run on the first sub-unit (first input sets) of a (kind, n) only; the depth-optimised modes on all input sets",
+        ],
+        &keys,
+    )
+}
+
+pub fn replay(_r: &Report, rec: &J) -> i32 {
+    let case = &rec["case"];
+    let name = case["kind"].as_str().unwrap_or("");
+    let n = case["n"].as_u64().unwrap_or(0);
+    let thorough = case["thorough_families"].as_bool().unwrap_or(false);
+    let cfg = match Cfg::from_json(&case["cfg"]) {
+        Some(c) => c,
+        None => {
+            println!("MACHINERY-ERROR property=C07 replay: bad cfg");
+            return 2;
+        }
+    };
+    let kind = match all_kinds(true).into_iter().find(|k| k.name() == name) {
+        Some(k) => k,
+        None => {
+            println!("MACHINERY-ERROR property=C07 replay: unknown kind {}", name);
+            return 2;
+        }
+    };
+    let input = case["input_index"].as_u64().map(|x| x as usize);
+    let want = rec["signature"].as_str().unwrap_or("");
+    println!("replay C07: kind={} n={} cfg={} input_index={:?}", name, n, cfg.name(), input);
+    let res = run_unit(
+        &kind,
+        n,
+        thorough,
+        Some(&Only { cfg: Some(cfg), inputs: input.map(|i| (i, i + 1)), verbose: true, depth_only: false }),
+    );
+    for m in res.machinery.iter() {
+        println!("MACHINERY-ERROR property=C07 {}", m);
+    }
+    if !res.machinery.is_empty() {
+        return 2;
+    }
+    let mut hit = false;
+    for (sig, what, case) in res.viols.iter() {
+        println!("observed violation: {} - {}", sig, what);
+        println!("detail: {}", case["detail"]);
+        if sig == want || want.is_empty() {
+            hit = true;
+        }
+    }
+    if hit {
+        println!("REPRODUCED property=C07 signature={}", want);
+        1
+    } else {
+        println!("NOT-REPRODUCED property=C07 signature={}", want);
+        0
+    }
 }
